@@ -218,6 +218,9 @@ pub struct LinkIn {
     pub naks: u8,
     pub obs: u8,
     pub reconnect: bool,
+    /// the link is torn down at this tick (timeout / REG_ERR: mark_for_recovery) and stays down until a reconnect
+    #[serde(default)]
+    pub down: bool,
 }
 
 #[derive(Debug, Clone, Hash, Serialize, Deserialize)]
@@ -237,8 +240,9 @@ fn ctl_strategy(max_ticks: usize) -> impl Strategy<Value = CtlCase> {
             prop_oneof![5 => Just(0u8), 2 => 1u8..4, 1 => 4u8..60],
             0u8..8,
             prop::bool::weighted(0.03),
+            prop::bool::weighted(0.02),
         )
-            .prop_map(|(present, rtt, bytes, naks, obs, reconnect)| LinkIn { present, rtt, bytes, naks, obs, reconnect });
+            .prop_map(|(present, rtt, bytes, naks, obs, reconnect, down)| LinkIn { present, rtt, bytes, naks, obs, reconnect, down });
         vec((0u8..DTS.len() as u8, vec(link, n as usize)), 1..max_ticks).prop_map(move |ticks| CtlCase { palette: palette.clone(), n_links: n, ticks })
     })
 }
@@ -267,6 +271,13 @@ pub fn check_ctl(case: &CtlCase, obs: &mut Obs) -> CheckResult {
                 c.reset_for_reconnect(now);
                 apply_reg3(c, now);
                 obs.class("counter-reset");
+            }
+            if li.down && c.connected {
+                c.mark_for_recovery();
+                obs.class("link-torn-down");
+            }
+            if !c.connected {
+                obs.class("tick-on-disconnected-link");
             }
             for sel in &li.rtt {
                 let r = case.palette[idx((*sel as u16) << 14, case.palette.len())];
